@@ -129,13 +129,13 @@ func init() {
 
 	prop("C07", "other",
 		"static analysis: recognition of the definition-expansion fragment in SSA (three map loops, needle construction, loop-carried text) whose order-independence is proved on paper in DESIGN.md",
-		"Decides that expandDefinitions is inside the program fragment for which DESIGN.md (C07) gives an order-independence argument: a nested pair of loops over the same map V whose only effect is V[s] = ReplaceAll(t, \"{{\"+n+\"}}\", r), followed by a loop that substitutes \"{{\"+n+\"}}\" by r in the loop-carried text, no early exit, no other effect, and a single application after the whole file was read (the call is not inside a loop). Any other shape is reported UNDECIDED, not green.",
+		"Decides that expandDefinitions is inside the program fragment for which DESIGN.md (C07) gives an order-independence argument: a nested pair of loops over the same map V whose only effect is V[s] = ReplaceAll(t, \"{{\"+n+\"}}\", r), followed by a loop that substitutes \"{{\"+n+\"}}\" by r in the loop-carried text, no early exit, no other effect, and a single application after the whole file was read (the call is not inside a loop). Any other shape is reported UNDECIDED, not green. After round eleven: TEMPLATE over what generate reaches (a definition value never stands in the template position of a Regexp.ReplaceAll/Expand call, where $name and $1 inside it would be expanded instead of pasted).",
 		"anything outside the fragment; that undefined names stay literal and that definition lines contribute no entry (value-level).",
 		[]string{"definitions are acyclic and contain no computed names (quantifier of C07)"},
 		func(c *Ctx, tier string) []*Result {
 			// every map iteration of the parser package except the ones that belong to C03/C06 alone
 			mo := inPkg(c.RuleMapOrder(), 1, "regex/parser")
-			return []*Result{c.RuleDefFragment(), mo, c.RuleIsoOwner(), keyHas(c.RuleRxDisjoint(false), 0, ":line handed to "), c.RuleDefMerge(), c.RuleRangeIndex(), inPkg(c.RuleErrLog(), 1, "regex/parser"), c.RuleLogStderr(), c.RuleStdoutPure(), c.RuleRxDisjoint(false), c.RulePatternPin("regex.DefinitionRegex"), c.RuleReadLine(), c.RuleBorrow(), c.RuleScanSplit(), inPkg(c.RuleEscParity(), 0, "regex/parser", "utils"), c.RuleDefKept(), c.RuleLitGuard(), c.RulePrintfConst(), c.RuleAppendAlias(), c.RuleLimitRead()}
+			return []*Result{c.RuleDefFragment(), mo, c.RuleIsoOwner(), keyHas(c.RuleRxDisjoint(false), 0, ":line handed to "), c.RuleDefMerge(), c.RuleRangeIndex(), inPkg(c.RuleErrLog(), 1, "regex/parser"), c.RuleLogStderr(), c.RuleStdoutPure(), c.RuleRxDisjoint(false), c.RulePatternPin("regex.DefinitionRegex"), c.RuleReadLine(), c.RuleBorrow(), c.RuleScanSplit(), inPkg(c.RuleEscParity(), 0, "regex/parser", "utils"), c.RuleDefKept(), c.RuleLitGuard(), c.RulePrintfConst(), c.RuleAppendAlias(), c.RuleLimitRead(), c.RuleTemplate(c.cmdFns("generate"))}
 		})
 
 	prop("C08", "other",
